@@ -65,6 +65,7 @@ class LogRun(object):
         self.fine_clock = False
         self.nclock = 0
         self.io_fault = False
+        self.wd_in_error = False
 
     def peer_dir(self):
         return os.path.basename(os.path.dirname(self.msgdir))
@@ -118,7 +119,9 @@ class LogRun(object):
             elif name == 'send_open':
                 h.send_open(p, ts, {'version': 4, 'asn': 65001, 'hold_time': 180, 'bgp_id': '10.0.0.1', 'capabilities': {}})
             elif name == 'on_update_error':
-                h.on_update_error(p, ts, {'attr': {}, 'nlri': [], 'withdraw': [], 'hex': "b'\\x00'"})
+                # (a malformed UPDATE as _update_received reports it: what could be decoded - here its withdrawn routes - and the octets)
+                h.on_update_error(p, ts, {'attr': {}, 'nlri': [], 'withdraw': ['10.9.0.0/16', '10.8.0.0/16'] if self.wd_in_error else [], 'sub_error': 6,
+                                          'hex': "b'\\x00'"})
 
     def event(self, kind, rot):
         self.nevent = getattr(self, 'nevent', 0) + 1
@@ -249,6 +252,8 @@ def replay_walk(g, walk, tid, frac):
         elif tid % 6 == 5:
             os.makedirs(os.path.join(sub, r.peer_dir(), 'msg'))
         r.io_fault = (tid % 9 == 4)
+        r.nplain = tid % len(PLAIN)          # histories start at different callbacks: every one is reached within the bounds
+        r.wd_in_error = (tid % 2 == 0)
         r.fine_clock = (tid % 5 == 2)
         if r.fine_clock:
             W.now = 0.5
